@@ -4,7 +4,10 @@
 ID=$1; PROP=$2; shift 2
 S=/tmp/seed-$ID; W=/tmp/wt-$ID
 OUT=/verif/seeded/$ID; mkdir -p $OUT
-echo "== demo on /repo";  REPO=/repo /venv/bin/python $S/demo.py > $OUT/demo_repo.out 2>&1; D0=$?; tail -2 $OUT/demo_repo.out
+# (the unmodified tree is a pristine scratch worktree too: a demo may leave files behind, e.g. quanto's extension build directory)
+P=/tmp/wt-$ID-pristine; git -C /repo worktree remove --force $P 2>/dev/null; git -C /repo worktree add --detach $P HEAD -q
+echo "== demo on the unmodified tree";  REPO=$P /venv/bin/python $S/demo.py > $OUT/demo_repo.out 2>&1; D0=$?; tail -2 $OUT/demo_repo.out
+git -C /repo worktree remove --force $P
 # fresh worktree at current HEAD with the patch
 git -C /repo worktree remove --force $W 2>/dev/null
 git -C /repo worktree add --detach $W HEAD -q && git -C $W apply $S/patch.diff || { echo "PATCH DOES NOT APPLY"; exit 3; }
